@@ -1,0 +1,32 @@
+//go:build verif
+
+package lua
+
+// Contracts checked by /verif/gocv (comment-only file; see /verif/DESIGN.md §3).
+
+// A configured trusted-proxy list stays a list (non-nil) even when none of its entries parses, so that "configured but
+// unusable" cannot be mistaken for "not configured"; every parsed network comes from a valid configured entry.
+//@ func parseTrustedProxyCIDRs
+//@ ensures[C32:configured-list-stays-a-list] (len(cidrStrings) == 0) == (result == nil)
+//@ loop 0 invariant len(cidrStrings) > 0 && parsed != nil
+
+//@ func isTrustedProxy
+//@ ensures[C32:trusted-iff] result == specTrustedPeer(remoteIP, trustedProxyCIDRs)
+//@ loop 0 invariant 0 <= iter__ && iter__ <= len(trustedProxyCIDRs) && remoteIP != nil &&
+//@     forall k :: 0 <= k && k < iter__ ==> !specInNet(trustedProxyCIDRs[k], *remoteIP)
+
+// The client IP and scheme shown to the authorizer differ from the TCP peer's only when forwarded headers are trusted
+// and the peer is a trusted proxy.
+//@ func (*LuaAuthorizer).resolveClientIPAndScheme
+//@ mode nosafety
+//@ ensures[C32:only-via-trusted-proxy] !specSameOptString(result, httpRequest.RemoteIP) || result1 != specDefaultScheme(httpRequest.Scheme) ==>
+//@     authorizer.trustForwardedHeaders && specTrustedPeer(httpRequest.RemoteIP, authorizer.trustedProxyCIDRs)
+
+// The authorizer is built with exactly the configured trust settings.
+//@ func NewLuaAuthorizerWithOptions
+//@ mode nosafety
+//@ ensures[C32:options-carried] err == nil ==> result != nil && result.trustForwardedHeaders == options.TrustForwardedHeaders &&
+//@     (len(options.TrustedProxyCIDRs) == 0) == (result.trustedProxyCIDRs == nil)
+
+//@ func (*LuaAuthorizer).dryRun
+//@ trusted
